@@ -158,8 +158,11 @@ def rule_r1(ctx):
     # the capture is unconditional, at the top of the patching function: the "originals" are whatever the classes hold at
     # the moment of patching (a table captured earlier - at construction - can be stale: another journal may have been
     # entered or left in between)
+    # unconditional (a top-level statement of the function) and before the first class attribute is patched
+    patch_stmts = [st for _t, _v, st in _assign_targets(wrap_f)]
     ok = ok and len(assigned) == 1 and norm(assigned[0].value) == "get_original_methods()" and \
-        assigned[0] in wrap_f.node.body and wrap_f.node.body.index(assigned[0]) <= 1
+        assigned[0] in wrap_f.node.body and all(
+            p_ in wrap_f.node.body and wrap_f.node.body.index(assigned[0]) < wrap_f.node.body.index(p_) for p_ in patch_stmts)
     ctx.check("R1", "wrap_ir_classes returns the table captured before patching", ok, wrap_f, assigned[0] if assigned else wrap_f.node,
               "the table that is wrapped and later handed to restore is not captured unconditionally at the time of patching "
               "(first statement of wrap_ir_classes): with a table captured at another time, nested or re-entered journals wrap and "
